@@ -26,7 +26,7 @@ var phoutLineRe = regexp.MustCompile(`^[0-9]+\.[0-9]{3}\t[^\t\n#]*#([0-9]+)(\t-?
 // signal <INT|TERM> <delay-ms> <instances> <work-us> <buffer-bytes>
 //
 // Runs the pandora-verif binary ($PANDORA_VERIF_BIN: the real cli.Run + one test gun) on a
-// config with a phout result file (ids on), sends the signal after <delay-ms>, waits for the
+// config with a phout result file (ids on), sends the signal <delay-ms> after the first report, waits for the
 // process to exit and compares the result file with the gun's unbuffered side log.
 //
 // observation:  <exit> missing=<n> dup=<n> malformed=<n> tail=<0|1> foreign=<0|1> had=<0|1> lines:<hex>,<hex>,<hex> info:<free text without blanks>
@@ -93,6 +93,14 @@ log:
 	cmd.Stderr = &out
 	if err := cmd.Start(); err != nil {
 		return "start-failed"
+	}
+	// the delay counts from the first report (the signal handler is installed right after the
+	// engine was started; a signal during process start-up would just kill it by default action)
+	for i := 0; i < 3000; i++ {
+		if st, err := os.Stat(side); err == nil && st.Size() > 0 {
+			break
+		}
+		time.Sleep(5 * time.Millisecond)
 	}
 	time.Sleep(time.Duration(delay) * time.Millisecond)
 	sig := syscall.SIGINT
